@@ -123,6 +123,9 @@ func record(unit string, c Case) {
 	if len(ref) > 1<<20 {
 		cls = append(cls, "big-binary(>1MiB)")
 	}
+	if len(ref) > 2<<20 {
+		cls = append(cls, "several-big-binaries")
+	}
 	ev.Case(d, nontriv, cls...)
 	if nontriv {
 		ev.KeepSample(unit, d, func() interface{} {
@@ -172,6 +175,28 @@ func TestRandom(t *testing.T) {
 	rapid.Check(t, func(t *rapid.T) {
 		k := wm.GenRootKind().Draw(t, "kind")
 		w := wm.Gen(t, k, wm.GenOpts{BigBinary: true, MaxDepth: rapid.IntRange(1, 6).Draw(t, "maxdepth")}, "w")
+		if rapid.IntRange(0, 149).Draw(t, "several_big") == 0 {
+			// several large binaries with different contents in one value (list and struct fields)
+			n := rapid.IntRange(2, 3).Draw(t, "nbig")
+			var bigs []wm.W
+			for i := 0; i < n; i++ {
+				b := make([]byte, (1<<20)+rapid.IntRange(1, 4096).Draw(t, "biglen"))
+				x := uint32(rapid.IntRange(1, 1<<20).Draw(t, "bigseed"))
+				for j := range b {
+					x = x*1664525 + 1013904223
+					b[j] = byte(x >> 24)
+				}
+				bigs = append(bigs, wm.Binary(b))
+			}
+			if rapid.Bool().Draw(t, "big_as_list") {
+				w = wm.List(wm.KBinary, bigs...)
+			} else {
+				w = wm.Struct()
+				for i, b := range bigs {
+					w.Fields = append(w.Fields, wm.Field{ID: int16(i + 1), V: b})
+				}
+			}
+		}
 		run(t, "random", Case{W: w, Plan: chunkio.GenPlan(t, "plan")})
 	})
 }
